@@ -2,7 +2,8 @@ package httpendpoint
 
 // C18 driver for the http_endpoint provider (injected through go test -overlay): the provider's
 // own watchChanges is invoked synchronously, once per poll, against real HTTP servers scripted by
-// the scenario (200 + yaml/json, 200 + empty, 200 + garbage, 404, 500, connection refused).
+// the scenario (200 + yaml/json, 200 + empty, 200 + garbage, 200 + a body that never arrives, 404, 500, connection
+// refused).
 
 import (
 	"context"
@@ -30,6 +31,20 @@ type source struct {
 	ep     *ruleSetEndpoint
 }
 
+// cut: two of the malformed contents are served as transfers that fail before the first byte of
+// the body, once under a content type heimdall does not know and once as YAML; what it returns
+// is the content type to announce.
+func (s *source) cut() string {
+	switch string(s.body) {
+	case "---\n":
+		return "text/plain"
+	case "null\n":
+		return "application/yaml"
+	default:
+		return ""
+	}
+}
+
 func (s *source) ServeHTTP(w http.ResponseWriter, _ *http.Request) {
 	s.mu.Lock()
 	defer s.mu.Unlock()
@@ -39,6 +54,18 @@ func (s *source) ServeHTTP(w http.ResponseWriter, _ *http.Request) {
 		w.WriteHeader(http.StatusInternalServerError)
 	case !s.exists:
 		w.WriteHeader(http.StatusNotFound)
+	case s.cut() != "":
+		// the transfer breaks off after the header: nothing of the announced body arrives
+		conn, buf, err := w.(http.Hijacker).Hijack()
+		if err != nil {
+			w.WriteHeader(http.StatusInternalServerError)
+
+			return
+		}
+
+		buf.WriteString("HTTP/1.1 200 OK\r\nContent-Type: " + s.cut() + "\r\nContent-Length: 120\r\n\r\n")
+		buf.Flush()
+		conn.Close()
 	default:
 		w.Header().Set("Content-Type", s.ctype)
 		w.WriteHeader(http.StatusOK)
